@@ -46,8 +46,12 @@ def sh(cmd, timeout=600, cwd=None, env=None, input=None):
     e.setdefault("CARGO_NET_OFFLINE", "true")
     if env:
         e.update(env)
-    p = subprocess.run(cmd, shell=isinstance(cmd, str), cwd=cwd, env=e, input=input,
-                       stdout=subprocess.PIPE, stderr=subprocess.STDOUT, timeout=timeout, text=True)
+    try:
+        p = subprocess.run(cmd, shell=isinstance(cmd, str), cwd=cwd, env=e, input=input,
+                           stdout=subprocess.PIPE, stderr=subprocess.STDOUT, timeout=timeout, text=True)
+    except subprocess.TimeoutExpired as ex:
+        out = ex.stdout.decode(errors="replace") if isinstance(ex.stdout, bytes) else (ex.stdout or "")
+        return 124, out + f"\n[vf] command timed out after {timeout}s: {cmd if isinstance(cmd, str) else ' '.join(map(str, cmd))[:300]}"
     return p.returncode, p.stdout
 
 
@@ -298,7 +302,7 @@ def _harness_dir():
     return d
 
 
-def cargo_build(bins, release=False, features=None, timeout=1700, extra_env=None):
+def cargo_build(bins, release=False, features=None, timeout=3000, extra_env=None):
     """P3: (re)build harness binaries against /repo's current working tree (hooks on)."""
     sync_lock()
     cmd = ["cargo", "build", "--offline", "--quiet"]
